@@ -122,20 +122,20 @@ func VH_C11_Session() {
 			again()
 			late = false
 			time.Sleep(200 * time.Millisecond)
-			// the closed connection's owner may still call Read on it (a
-			// transport that has not noticed yet) while the next Accept/Dial
-			// is already re-establishing the session: that call fails, it
-			// does not hang
-			rd := make(chan error, 1)
-			go func() { _, err := first.Read(make([]byte, 1)); rd <- err }()
-			select {
-			case err := <-rd:
-				vReach("closed-read")
-				vAssert(err != nil, "Read on a closed connection returned data")
-			case <-time.After(5 * time.Second):
-				vAssert(false, "Read on a closed connection blocks while the next Accept/Dial is pending (later Read/Write calls must return errors)")
-				return false
-			}
+		}
+		// the closed connection's owner may still call Read on it (a
+		// transport that has not noticed yet) while the next Accept/Dial
+		// is already re-establishing the session: that call fails, it
+		// does not hang
+		rd := make(chan error, 1)
+		go func() { _, err := first.Read(make([]byte, 1)); rd <- err }()
+		select {
+		case err := <-rd:
+			vReach("closed-read")
+			vAssert(err != nil, "Read on a closed connection returned data")
+		case <-time.After(5 * time.Second):
+			vAssert(false, "Read on a closed connection blocks while the next Accept/Dial is pending (later Read/Write calls must return errors)")
+			return false
 		}
 		select {
 		case <-pending:
